@@ -94,7 +94,7 @@ def run(tier, seed):
     for i, (maxq, allow, uni) in enumerate(configs):
         tf = d / f"ports-{i}.ndjson"
         p = vlib.run_driver(drv, ["ports", "-seed", seed * 100 + i, "-n", n, "-steps", 14 if tier == "quick" else 18, "-out", tf,
-                                  "-maxq", maxq, "-allow", allow, "-universe", uni, "-directed"], timeout=1500)
+                                  "-maxq", maxq, "-allow", allow, "-universe", uni, "-directed"], timeout=1500, env_extra=vlib.trace_env("Trace_FrpsPorts"))
         for tok in p.stdout.split():
             if "=" in tok:
                 k, _, val = tok.partition("=")
